@@ -252,18 +252,28 @@ class EvalMixin:
 
     def e_JoinedStr(self, n, fr):
         parts = []
+        opaque = False
         for v in n.values:
             if isinstance(v, ast.Constant):
                 parts.append(v.value)
             else:
                 x = self.eval(v.value, fr)
-                if isinstance(x, (Sym, Ref)):
-                    parts.append("<?>")
-                else:
-                    try:
-                        parts.append(format(x, self.eval(v.format_spec, fr) if v.format_spec else ""))
-                    except Exception:
-                        parts.append("<?>")
+                if isinstance(x, TInt) and not isinstance(x.val, Sym):
+                    x = x.val
+                if isinstance(x, (Sym, Ref)) or not isinstance(x, (str, int, bytes, float, bool, type(None), tuple)):
+                    opaque = True
+                    continue
+                if v.conversion == 114:          # !r
+                    x = repr(x)
+                elif v.conversion == 115:        # !s
+                    x = str(x)
+                try:
+                    parts.append(format(x, self.eval(v.format_spec, fr) if v.format_spec else ""))
+                except Exception:
+                    opaque = True
+        if opaque:
+            # symbolic ingredients: the text is not modelled (fit for exception messages only, see values.SMsg)
+            return SMsg()
         return "".join(parts)
 
     def e_Lambda(self, n, fr):
